@@ -373,6 +373,35 @@ def r3_no_storage(R) -> None:
                                 R.violation(q2, f'alias-mutates-foreign:{fi.name}:{text(a_)[:30]}', f'`{text(c)[:60]}`: `{fi.name}()` changes its argument `{p_}` in place and receives '
                                             f'`{text(a_)[:40]}`, an object the alias layer does not own (e.g. the container\'s live index list): aliases would be added to it',
                                             where=f'{fi2.module.relpath}:{c.lineno}')
+    # the same within one method (a helper read in place): what a base-class method handed back, then changed in place
+    for q, fi in R.repo.functions.items():
+        if not q.startswith(A + '.'):
+            continue
+        f = Fn(R, q)
+        for nd in f.cfg.nodes:
+            if nd.ast is None or nd.kind != 'stmt':
+                continue
+            for x in ast.walk(nd.ast):
+                tgt = None
+                if isinstance(x, ast.Call) and isinstance(x.func, ast.Attribute) and x.func.attr in MUTATORS and isinstance(x.func.value, ast.Name) and x.func.value.id in f.lf.locals:
+                    tgt = x.func.value.id
+                elif isinstance(x, ast.Subscript) and isinstance(x.ctx, (ast.Store, ast.Del)) and isinstance(x.value, ast.Name) and x.value.id in f.lf.locals:
+                    tgt = x.value.id
+                if tgt is None:
+                    continue
+                for (_s, dv) in f.lf.values_reaching(nd.id, tgt):
+                    if dv is not None and isinstance(dv, ast.Call) and isinstance(dv.func, ast.Attribute) and is_call(dv.func.value, 'super'):
+                        m = dv.func.attr
+                        shared = []
+                        for q3, fi3 in R.repo.functions.items():
+                            if q3.endswith('.' + m) and not q3.startswith(A + '.') and fi3.cls is not None:
+                                for r_ in ast.walk(fi3.node):
+                                    if isinstance(r_, ast.Return) and r_.value is not None and isinstance(r_.value, (ast.Subscript, ast.Attribute, ast.Name)):
+                                        shared.append((q3, text(r_.value)))
+                        if shared:
+                            R.violation(q, f'alias-mutates-foreign:{m}:{tgt}',
+                                        f'`{text(x)[:60]}` changes in place what `super().{m}()` returned, and {shared[0][0].split(".")[-2]}.{m}() returns `{shared[0][1]}` itself (not a copy): '
+                                        f'the alias layer modifies state it does not own - the aliases are added to the container\'s live list of variables', where=f.where(nd))
     R.ok(A, f'no add_variable/add_attribute and no __dict__ store except aliases/preferred_names in {n} methods')
     R.expect(A, n, 8, 'methods of AliasMixin')
 
